@@ -617,6 +617,7 @@ where
     // evidence describes a registered command's run; experiments (overridden case counts, witness
     // searches, sensitivity runs without regression plans) leave the committed record alone
     let experiment = args.cases.is_some()
+        || std::env::var("VCHECK_NO_EVIDENCE").is_ok()
         || args.extra.iter().any(|a| a == "--strict" || a == "--only" || a == "--no-regress");
     if !experiment {
         let ev_dir = args.root.join("evidence");
